@@ -218,6 +218,20 @@ mod verif_kani_core {
         }
         std::mem::forget(a);
     }
+    // the smallest case with a triple duplicate (1 x 1 target, three triplets): cheap enough for the quick tier
+    #[kani::proof]
+    #[kani::unwind(8)]
+    fn new_from_triplets_three_duplicates_1x1() {
+        let v: [f64; 3] = kani::any();
+        kani::assume(v[0].is_finite() && v[1].is_finite() && v[2].is_finite());
+        let a = CscMatrix::new_from_triplets(1, 1, vec![0, 0, 0], vec![0, 0, 0], v.to_vec());
+        assert!(wf(&a) && a.m == 1 && a.n == 1);
+        assert!(stored_at(&a, 0, 0));
+        let acc = (v[0] + v[1]) + v[2];
+        let got = dense_at(&a, 0, 0);
+        assert!(got == acc || (got.is_nan() && acc.is_nan()));
+        std::mem::forget(a);
+    }
     #[kani::proof]
     #[kani::unwind(9)]
     fn new_from_triplets_four_duplicates() { triplets_case([1, 1, 1, 1], [0, 0, 0, 0]); }
